@@ -395,7 +395,7 @@ class Node(object):
                 raise ValueError(source)
             before = base.mass
             g = pt.formula(base)
-            g += 3 * pt.formula("H2O")
+            g += 3 * self._formula(tbl, "H2O")
             twice = 2 * g
             return canon([before, g.mass, twice.mass, base.mass, str(g)])
         if which == "show_table":
